@@ -197,3 +197,13 @@ pub broadcast proof fn lemma_rely_store(a: World, b: World)
 {
     lemma_unchanged_store(a, b);
 }
+
+pub broadcast proof fn lemma_unchanged_trans(a: World, b: World, c: World)
+    requires #[trigger] ds_hash_unchanged(a, b), #[trigger] ds_hash_unchanged(b, c), a.hash == b.hash
+    ensures ds_hash_unchanged(a, c)
+{
+    assert forall|k: Key| is_hash_key(k, a.hash) implies (#[trigger] c.ds.contains_key(k) == a.ds.contains_key(k) && c.ds[k] == a.ds[k]) by {
+        assert(b.ds.contains_key(k) == a.ds.contains_key(k));
+        assert(c.ds.contains_key(k) == b.ds.contains_key(k));
+    }
+}
